@@ -7,6 +7,7 @@ package cryptobyte
 import (
 	encoding_asn1 "encoding/asn1"
 	"fmt"
+	"math"
 	"math/big"
 	"reflect"
 	"time"
@@ -166,6 +167,11 @@ func isValidOID(oid encoding_asn1.ObjectIdentifier) bool {
 	}
 
 	if oid[0] > 2 || (oid[0] <= 1 && oid[1] >= 40) {
+		return false
+	}
+
+	if oid[0] == 2 && int64(oid[1]) > math.MaxInt64-80 {
+		// 40*oid[0] + oid[1] must not overflow the int64 it is encoded from.
 		return false
 	}
 
